@@ -14,7 +14,8 @@ from clif import Ptr, FuncAddr, Unsupported, PathCut, Explorer, World, Path, Eve
 import lang
 from lang import INTS, FLOATS, is_int, is_float, EnumVal
 
-EXTRACT = os.path.join(os.path.dirname(os.path.dirname(os.path.abspath(__file__))), "build", "extract", "debug", "extract")
+_BUILD = os.environ.get("VERIF_BUILD") or os.path.join(os.path.dirname(os.path.dirname(os.path.abspath(__file__))), "build")
+EXTRACT = os.path.join(_BUILD, "extract", "debug", "extract")
 
 
 # ---------------------------------------------------------------------------- independent C-layout rule
@@ -218,6 +219,16 @@ def host_models():
         H[f"emit_{t}"] = emit
         H[f"pure_{t}"] = pure
     H["emit7"] = emit
+
+    def msub(path, name, args):
+        # the four registered `msub` methods share their name; their operand widths tell them apart
+        t = {32: "i32", 8: "u8", 64: "i64", 16: "u16"}[args[2].size()]
+        path.events.append(Event("host", f"msub_{t}", [args[2], args[3]]))
+        v = args[2] - args[3]
+        path.store(args[1], v, v.size() // 8)
+        return None
+
+    H["msub"] = msub
 
     def mk(path, name, args):
         path.events.append(Event("host", "mk", [args[2]]))
@@ -524,7 +535,9 @@ def bits_of(model, ty, v):
     if ty == "bool":
         return 1 if z3.is_true(x) else 0
     if is_float(ty):
-        return model.eval(z3.fpToIEEEBV(v), model_completion=True).as_long()
+        if isinstance(x, z3.FPNumRef) and x.isNaN():
+            return 0x7fc00000 if ty == "f32" else 0x7ff8000000000000     # fpToIEEEBV(NaN) is unspecified in SMT-LIB
+        return z3.simplify(z3.fpToIEEEBV(x)).as_long()
     return x.as_long()
 
 
